@@ -1261,7 +1261,12 @@ class Bits:
 
         new_slice = bitstring.bitstore.offset_slice_indices_lsb0(slice(start, end, None), len(self))
         msb0_start, msb0_end = self._validate_slice(new_slice.start, new_slice.stop)
-        p = self._rfind_msb0(bs, msb0_start, msb0_end, bytealigned)
+        if bytealigned:
+            # It is the lsb0 position that has to be byte aligned, so the msb0 search can't do the filtering.
+            for lsb0_pos in self._findall_lsb0(bs, start, end, 1, True):
+                return (lsb0_pos,)
+            return ()
+        p = self._rfind_msb0(bs, msb0_start, msb0_end, False)
 
         if p:
             return (len(self) - p[0] - len(bs),)
@@ -1373,8 +1378,14 @@ class Bits:
         assert bitstring.options.lsb0
         new_slice = bitstring.bitstore.offset_slice_indices_lsb0(slice(start, end, None), len(self))
         msb0_start, msb0_end = self._validate_slice(new_slice.start, new_slice.stop)
-
-        p = self._find_msb0(bs, msb0_start, msb0_end, bytealigned)
+        if bytealigned:
+            # It is the lsb0 position that has to be byte aligned, so the msb0 search can't do the filtering.
+            for msb0_pos in self._findall_msb0(bs, msb0_start, msb0_end, None, False):
+                lsb0_pos = len(self) - msb0_pos - len(bs)
+                if lsb0_pos % 8 == 0:
+                    return (lsb0_pos,)
+            return ()
+        p = self._find_msb0(bs, msb0_start, msb0_end, False)
         if p:
             return (len(self) - p[0] - len(bs),)
         else:
